@@ -166,6 +166,14 @@ BASES = [
         '1040.itemize': 'yes', '1040.number_1098': '1', '1098:0.box_1': '9000', '1040_sa.state_local_real_estate_taxes': '3000',
         '1040.charitable_contributions_std_ded': '300',
     }),
+    Base('B13-ira-small-basis', ['1040'], {
+        '1040.number_1099-r': '1', '1099-r:0.box_1': '20000', '1099-r:0.box_2a': '20000', '1099-r:0.box_7_ira_sep_simple': 'yes',
+        '1099-r:0.belongs_to': 'taxpayer', '1040.ira_exception2_you': 'yes', '8606:you.part_1_needed': 'yes',
+        '8606:you.nondeductible_contributions': '400', '8606:you.traditional_basis': '0',
+        '8606:you.distribution_or_roth_conversion': 'yes', '8606:you.year_end_value_non_roth': '500000',
+        '8606:you.distributions_2023': '20000', '8606:you.distributions_2022': '20000', '8606:you.distributions_2021': '20000',
+        '1040.number_w-2': '1', 'w-2:0.box_1': '30000', 'w-2:0.box_2': '2500', 'w-2:0.box_5': '30000',
+    }),
     Base('B7-dense', ['1040'], {
         '1040.number_w-2': '2', 'w-2:1.belongs_to': 'spouse', '1040.filing_status': 'MarriedFilingJointly',
         '1040.number_1099-int': '1', '1040.number_1099-div': '1', '1040.number_1099-g': '1', '1040.number_1098': '1',
